@@ -1,5 +1,6 @@
 """C20 - convenience transform constructors follow their documented conventions."""
 import math
+import warnings
 
 import numpy as np
 from hypothesis import strategies as st
@@ -21,23 +22,35 @@ from menpo.transform import (
     rotate_ccw_about_centre,
     shear_about_centre,
     transform_about_centre,
+    Similarity,
+    ThinPlateSplines,
 )
+from menpo.transform.base import Transform
 from menpo.transform.tcoords import tcoords_to_image_coords, image_coords_to_tcoords
-from menpo.shape import PointCloud, TriMesh
-from menpo.image import Image
+from menpo.shape import PointCloud, TriMesh, PointUndirectedGraph, TexturedTriMesh
+from menpo.image import Image, MaskedImage, BooleanImage
 
 PROPERTY = "C20"
 RULE = (
     "Hypothesis-drawn angles (degrees in [-1080,1080] quantised to 1/64, radians likewise), unit "
     "quaternions, rotation matrices built by Rodrigues from a drawn unit axis and angle, scale "
-    "factor lists, objects with a centre (PointCloud/TriMesh 2-D/3-D, Image) and image shapes; a case "
-    "is non-trivial when the angle is not a multiple of 90 degrees / the factors are not all 1 / the "
-    "object is not centred at the origin; distinct = distinct canonical-JSON digest of the case"
+    "factor lists, objects with a centre (PointCloud/TriMesh/PointUndirectedGraph 2-D/3-D, Image/MaskedImage/"
+    "BooleanImage) and image shapes; angles and factors are handed over as python floats, python ints, numpy "
+    "integer scalars, float32 / float64 scalars (arrays for factors), with degrees= spelled out or left to its "
+    "documented default; a case is non-trivial when the angle is not a multiple of 90 degrees / the factors are "
+    "not all 1 / the object is not centred at the origin; distinct = distinct canonical-JSON digest of the case"
 )
 ASSUMPTIONS = [
     "3-D axis-angle clause keeps the rotation angle in [0.01, pi-0.01] rad as the property excludes identity and half-turns",
     "scale factors are identical floats or differ by >= 1e-2 relative (clearly equal / clearly different)",
     "reference matrices: Rodrigues formula, textbook quaternion matrix, explicit corner maps",
+    "texture shapes have every side >= 2: a side of 1 makes the (shape-1) scale zero, Scale refuses it (ValueError) and "
+    "the map is not invertible there; that behaviour is recorded, not asserted",
+    "an angle held in an integer type denotes that whole number of degrees/radians; one held in float32 denotes the "
+    "float32 value and is compared at single precision (a few float32 ulps of the angle), every other case at 1e-9",
+    "centre references: mean of the points for shapes, shape/2 for images (what the centre() docstrings state)",
+    "the thin-plate-spline fallback case compares against an identically built spline applied on its own (the "
+    "composition about the centre is what is checked); the closed-form CubicField case is fully independent",
 ]
 
 
@@ -65,71 +78,180 @@ def quat_matrix(q):
 
 
 # ------------------------------------------------------------------------------------------ 1
+# how the angle is handed over: python float (twice as likely), python int, numpy integer / floating scalars
+ARG_TYPES = ["float", "float", "int", "np.int64", "np.int32", "np.float32", "np.float64"]
+
+
+def typed_angle(x, arg_type):
+    """(the argument to pass, the real number it denotes, is-single-precision) for an angle x in the caller's unit.
+    Integer types carry the nearest whole number of units, float32 the nearest single-precision value: the
+    reference is computed in double precision from the number the argument actually denotes."""
+    if arg_type in ("int", "np.int64", "np.int32"):
+        k = int(round(x))
+        a = k if arg_type == "int" else getattr(np, arg_type[3:])(k)
+        return a, float(k), False
+    if arg_type == "np.float32":
+        a = np.float32(x)
+        return a, float(a), True
+    if arg_type == "np.float64":
+        return np.float64(x), float(x), False
+    return float(x), float(x), False
+
+
+def angle_atol(th, single):
+    # double precision: 1e-9.  An angle held in single precision: the constructors then work in single precision
+    # throughout (deg2rad, cos, sin), so allow a few float32 ulps of the angle in radians
+    return 1e-6 + 2.4e-7 * abs(th) if single else 1e-9
+
+
+def call_with_degrees(f, args, degrees, omit):
+    """degrees=True is the documented default of every angle-taking constructor: omit the keyword when asked to"""
+    if degrees and omit:
+        return f(*args)
+    return f(*args, degrees=degrees)
+
+
 def s_ctor():
     return st.fixed_dictionaries(
         {
             "which": st.sampled_from(["2d", "x", "y", "z"]),
             "degrees": st.booleans(),
+            "omit_degrees": st.booleans(),
+            "arg_type": st.sampled_from(ARG_TYPES),
             "theta_deg": gen.angle_deg(),
         }
     )
 
 
-def c_ctor(case, ctx):
-    th_deg = case["theta_deg"]
-    th = math.radians(th_deg)
-    arg = th_deg if case["degrees"] else th
-    which = case["which"]
-    ctx.event("ctor=%s degrees=%s" % (which, case["degrees"]))
-    ctx.event("sign=%s" % ("neg" if th_deg < 0 else "nonneg"))
-    ctx.nontrivial(abs(th_deg) % 90 != 0)
+def _rot_ctor(which):
     if which == "2d":
-        r = Rotation.init_from_2d_ccw_angle(arg, degrees=case["degrees"])
+        return Rotation.init_from_2d_ccw_angle
+    return getattr(Rotation, "init_from_3d_ccw_angle_around_" + which)
+
+
+def c_ctor(case, ctx):
+    degrees = case["degrees"]
+    omit = bool(case.get("omit_degrees", False))
+    arg_type = case.get("arg_type", "float")
+    x = case["theta_deg"] if degrees else math.radians(case["theta_deg"])
+    arg, val, single = typed_angle(x, arg_type)
+    th = math.radians(val) if degrees else val
+    th_deg = val if degrees else (case["theta_deg"] if arg_type in ("float", "np.float64") else math.degrees(val))
+    atol = angle_atol(th, single)
+    which = case["which"]
+    ctx.event("ctor=%s degrees=%s" % (which, "default" if (degrees and omit) else degrees))
+    ctx.event("angle passed as " + arg_type)
+    ctx.event("sign=%s" % ("neg" if th_deg < 0 else "nonneg"))
+    m90 = abs(th_deg) % 90
+    ctx.nontrivial(min(m90, 90 - m90) > 1e-6)
+    f = _rot_ctor(which)
+    r = call_with_degrees(f, (arg,), degrees, omit)
+    if which == "2d":
         want = rot2(th)
         e0 = r.apply(np.array([[1.0, 0.0]]))[0]
         e1 = r.apply(np.array([[0.0, 1.0]]))[0]
         ctx.expect(
-            close(e0, [math.cos(th), math.sin(th)], atol=1e-9),
+            close(e0, [math.cos(th), math.sin(th)], atol=atol),
             "ctor.2d.e0",
             lambda: "theta=%r deg: e0 -> %r" % (th_deg, e0),
         )
         ctx.expect(
-            close(e1, [-math.sin(th), math.cos(th)], atol=1e-9),
+            close(e1, [-math.sin(th), math.cos(th)], atol=atol),
             "ctor.2d.e1",
             lambda: "theta=%r deg: e1 -> %r" % (th_deg, e1),
         )
     else:
-        f = getattr(Rotation, "init_from_3d_ccw_angle_around_" + which)
-        r = f(arg, degrees=case["degrees"])
         axis = np.eye(3)["xyz".index(which)]
         want = rodrigues(axis, th)
         ctx.expect(
-            close(r.apply(axis[None])[0], axis, atol=1e-9),
+            close(r.apply(axis[None])[0], axis, atol=atol),
             "ctor.3d.axis_fixed." + which,
             lambda: describe(r.apply(axis[None])[0], axis),
         )
     ctx.expect(isinstance(r, Rotation), "ctor.class", type(r).__name__)
     ctx.expect(
-        close(r.rotation_matrix, want, atol=1e-9),
+        close(r.rotation_matrix, want, atol=atol),
         "ctor.matrix." + which,
-        lambda: "theta=%r deg degrees=%r\n%s" % (th_deg, case["degrees"], describe(r.rotation_matrix, want)),
+        lambda: "theta=%r deg (%s %r) degrees=%r%s\n%s" % (
+            th_deg, arg_type, arg, degrees, " (keyword omitted)" if degrees and omit else "",
+            describe(r.rotation_matrix, want)),
     )
     h = np.eye(want.shape[0] + 1)
     h[:-1, :-1] = want
-    ctx.expect(close(r.h_matrix, h, atol=1e-9), "ctor.h_matrix." + which, lambda: describe(r.h_matrix, h))
-    # degrees == radians o deg2rad
-    r2 = (
-        Rotation.init_from_2d_ccw_angle(th_deg if not case["degrees"] else th, degrees=not case["degrees"])
-        if which == "2d"
-        else getattr(Rotation, "init_from_3d_ccw_angle_around_" + which)(
-            th_deg if not case["degrees"] else th, degrees=not case["degrees"]
-        )
-    )
+    ctx.expect(close(r.h_matrix, h, atol=atol), "ctor.h_matrix." + which, lambda: describe(r.h_matrix, h))
+    # degrees == radians o deg2rad (the other unit always as a python float with the keyword spelled out)
+    r2 = f(th if degrees else math.degrees(th), degrees=not degrees)
     ctx.expect(
-        close(r.h_matrix, r2.h_matrix, atol=1e-9),
+        close(r.h_matrix, r2.h_matrix, atol=atol),
         "ctor.degrees_vs_radians." + which,
         lambda: describe(r.h_matrix, r2.h_matrix),
     )
+
+
+def s_shear_ctor():
+    # different grids for the two angles: Hypothesis likes to repeat a drawn number, and phi == psi cannot tell the
+    # two shears apart
+    return st.fixed_dictionaries(
+        {
+            # (a zero angle comes from the whole-number argument types, which round small angles to 0)
+            "phi_deg": gen.qnz(-75, 75, 0.25, 16),
+            "psi_deg": gen.qnz(-74, 74, 0.25, 20),
+            "degrees": st.booleans(),
+            "omit_degrees": st.booleans(),
+            "arg_type": st.sampled_from(ARG_TYPES),
+        }
+    )
+
+
+def c_shear_ctor(case, ctx):
+    degrees, omit, arg_type = case["degrees"], case["omit_degrees"], case["arg_type"]
+    conv = (lambda v: v) if degrees else math.radians
+    a_phi, v_phi, single = typed_angle(conv(case["phi_deg"]), arg_type)
+    a_psi, v_psi, _ = typed_angle(conv(case["psi_deg"]), arg_type)
+    if not degrees and arg_type in ("int", "np.int64", "np.int32"):
+        # whole radians: +-1 rad is the only non-zero value short of the pole of tan at pi/2
+        ctx.event("whole radians")
+    phi = math.radians(v_phi) if degrees else v_phi
+    psi = math.radians(v_psi) if degrees else v_psi
+    ctx.event("degrees=%s" % ("default" if (degrees and omit) else degrees))
+    ctx.event("angle passed as " + arg_type)
+    ctx.event("signs phi %s psi %s" % ("-" if phi < 0 else "+", "-" if psi < 0 else "+"))
+    ctx.nontrivial(phi != 0 and psi != 0 and abs(phi) != abs(psi))
+    a = call_with_degrees(Affine.init_from_2d_shear, (a_phi, a_psi), degrees, omit)
+    ctx.expect(type(a) is Affine, "shear_ctor.class", type(a).__name__)
+    want = np.array([[1.0, math.tan(phi), 0.0], [math.tan(psi), 1.0, 0.0], [0.0, 0.0, 1.0]])
+    # d tan = (1 + tan^2) d angle: single-precision angles lose that much
+    atol = 1e-9 if not single else 1e-6 * (1 + max(math.tan(phi) ** 2, math.tan(psi) ** 2))
+    ctx.expect(close(a.h_matrix, want, atol=atol), "shear_ctor.matrix",
+               lambda: "phi=%r psi=%r rad (%s) degrees=%r\n%s" % (phi, psi, arg_type, degrees, describe(a.h_matrix, want)))
+    # x' = x + tan(phi) y ; y' = tan(psi) x + y
+    p = np.array([[1.0, 0.0], [0.0, 1.0], [2.0, -3.0]])
+    wantp = np.array([[1.0, math.tan(psi)], [math.tan(phi), 1.0],
+                      [2.0 - 3.0 * math.tan(phi), 2.0 * math.tan(psi) - 3.0]])
+    ctx.expect(close(a.apply(p), wantp, atol=atol * 10), "shear_ctor.apply", lambda: describe(a.apply(p), wantp))
+    a2 = Affine.init_from_2d_shear(phi if degrees else math.degrees(phi), psi if degrees else math.degrees(psi),
+                                   degrees=not degrees)
+    ctx.expect(close(a.h_matrix, a2.h_matrix, atol=atol), "shear_ctor.degrees_vs_radians",
+               lambda: describe(a.h_matrix, a2.h_matrix))
+
+
+IDENTITY_CLASSES = {"Rotation": Rotation, "UniformScale": UniformScale, "NonUniformScale": NonUniformScale,
+                    "Affine": Affine, "Similarity": Similarity, "Translation": Translation, "Homogeneous": Homogeneous}
+
+
+def enum_identity(tier):
+    return [{"cls": k, "d": d} for k in sorted(IDENTITY_CLASSES) for d in (2, 3)]
+
+
+def c_identity(case, ctx):
+    cls, d = IDENTITY_CLASSES[case["cls"]], case["d"]
+    ctx.nontrivial(True)
+    t = cls.init_identity(d)
+    ctx.expect(type(t) is cls, "identity.class", "%s.init_identity(%d) -> %s" % (case["cls"], d, type(t).__name__))
+    ctx.expect(t.n_dims == d, "identity.n_dims", repr(t.n_dims))
+    ctx.expect(np.array_equal(t.h_matrix, np.eye(d + 1)), "identity.h_matrix", lambda: describe(t.h_matrix, np.eye(d + 1)))
+    p = np.arange(1.0, 1.0 + 4 * d).reshape(4, d) * 0.37 - 2.0
+    ctx.expect(close(t.apply(p), p, atol=0), "identity.apply", lambda: describe(t.apply(p), p))
 
 
 # ------------------------------------------------------------------------------------------ 2
@@ -209,7 +331,11 @@ def s_quat():
     return st.fixed_dictionaries({"q": st.one_of(gen.unit_quaternion_case(), gen.unit_quaternion_case(), half_turn),
                                   # the receiver of from_vector: None = a fresh identity, else the k-th of the 24 axis-
                                   # aligned rotations written with integers (0 / +-1) in an integer-typed matrix
-                                  "base": st.one_of(st.none(), st.none(), st.integers(0, 23))})
+                                  "base": st.one_of(st.none(), st.none(), st.integers(0, 23)),
+                                  # how the quaternion enters: a new object (init_3d_from_quaternion / from_vector) or
+                                  # written into the receiver (the deprecated public from_vector_inplace / the
+                                  # _from_vector_inplace the public API documents for performance-sensitive callers)
+                                  "entry": st.sampled_from(["new", "new", "inplace_public", "inplace_private"])})
 
 
 def _int_rotations():
@@ -235,12 +361,25 @@ def c_quat(case, ctx):
     ctx.event("q0~0 (half turn)" if abs(qv[0]) < 1e-6 else "q0>0")
     if abs(qv[0]) < 1e-6:
         ctx.event("half-turn axis signs mixed" if min(qv[1:]) < 0 < max(qv[1:]) else "half-turn axis signs same")
+    entry = case.get("entry", "new")
+    ctx.event("entry=" + entry)
+    q_arg = qv.copy()
     if case.get("base") is None:
-        r = Rotation.init_3d_from_quaternion(qv)
+        base = None
     else:
         base = Rotation(INT_ROTATIONS[case["base"] % len(INT_ROTATIONS)].copy())
         ctx.event("receiver built from an integer-typed matrix")
-        r = base.from_vector(qv)
+    if entry == "new":
+        r = Rotation.init_3d_from_quaternion(q_arg) if base is None else base.from_vector(q_arg)
+    else:
+        r = Rotation.init_identity(3) if base is None else base
+        if entry == "inplace_public":
+            with warnings.catch_warnings():
+                warnings.simplefilter("ignore")
+                r.from_vector_inplace(q_arg)
+        else:
+            r._from_vector_inplace(q_arg)
+    ctx.expect(np.array_equal(q_arg, qv), "quat.argument_mutated", lambda: describe(q_arg, qv))
     ctx.expect(isinstance(r, Rotation) and r.n_dims == 3, "quat.class", type(r).__name__)
     want = quat_matrix(qv)
     ctx.expect(close(r.rotation_matrix, want, atol=1e-9), "quat.matrix", lambda: describe(r.rotation_matrix, want))
@@ -273,25 +412,66 @@ def c_rotmat(case, ctx):
 
 
 # ------------------------------------------------------------------------------------------ 4
+SHAPE_KINDS = ["pc2", "pc3", "tm2", "tm3", "pug2", "pug3"]
+IMAGE_KINDS = ["img2", "img3", "mimg2", "mimg3", "bimg2", "bimg3"]
+# how the factor of scale_about_centre is handed over ("`float` or (n_dims,) ndarray ... as defined in the Scale
+# documentation": a scalar scales every axis, an array one axis each)
+SCALE_FORMS = ["float", "float", "int", "np.int64", "np.float32", "array", "array", "int_array"]
+
+
+HELPERS_2D = ["scale", "scale", "rotate", "rotate", "shear", "shear", "transform_h", "transform_chain",
+              "transform_tps", "transform_custom"]
+HELPERS_3D = ["scale", "scale", "scale", "rotate", "shear", "transform_h", "transform_h", "transform_chain",
+              "transform_chain", "transform_custom", "transform_custom"]
+
+
+class CubicField(Transform):
+    """A transform outside the homogeneous family with a closed form: v -> a v |v|^2 / 400 + b."""
+
+    def __init__(self, a, b):
+        self.a = float(a)
+        self.b = np.array(b, dtype=float)
+
+    @property
+    def n_dims(self):
+        return self.b.shape[0]
+
+    def _apply(self, x, **kwargs):
+        return self.a * x * (x ** 2).sum(axis=1)[:, None] / 400.0 + self.b
+
+
 def s_about_centre():
     @st.composite
     def s(draw):
-        kind = draw(st.sampled_from(["pc2", "pc3", "tm2", "tm3", "img2", "img3"]))
+        kind = draw(st.sampled_from(SHAPE_KINDS + IMAGE_KINDS))
         d = 3 if kind.endswith("3") else 2
         case = {"kind": kind}
-        if kind.startswith("img"):
+        if kind in IMAGE_KINDS:
             case["shape"] = draw(st.lists(st.integers(2, 60), min_size=d, max_size=d))
+            case["n_channels"] = draw(st.integers(1, 3))
+            case["mask_seed"] = draw(st.integers(0, 2 ** 16))
         else:
             case["pts"] = draw(gen.points_case(3, 9, d, extent=20.0))
             case["shift"] = draw(gen.vec(d, -50, 50))
-        case["helper"] = draw(st.sampled_from(["scale", "rotate", "shear", "transform_h", "transform_chain"]))
+        # rotation / shear about the centre are 2-D only (3-D objects: the documented refusal, drawn less often);
+        # menpo's thin plate splines are 2-D
+        case["helper"] = draw(st.sampled_from(HELPERS_2D if d == 2 else HELPERS_3D))
         case["degrees"] = draw(st.booleans())
+        case["omit_degrees"] = draw(st.booleans())
+        case["arg_type"] = draw(st.sampled_from(ARG_TYPES))
         case["theta_deg"] = draw(gen.angle_deg())
         case["phi_deg"] = draw(gen.q(-75, 75, 16))
         case["psi_deg"] = draw(gen.q(-75, 75, 16))
-        case["scale"] = draw(gen.q(0.1, 8))
+        case["scale"] = draw(st.one_of(gen.q(0.1, 8), gen.qnz(-8, 8, 0.1)))
+        case["scale_form"] = draw(st.sampled_from(SCALE_FORMS))
+        case["scale_vec"] = draw(st.lists(gen.qnz(-8, 8, 0.1), min_size=d, max_size=d))
         case["lin"] = draw(gen.linear_case(d))
         case["t"] = draw(gen.vec(d))
+        if case["helper"] == "transform_tps":
+            case["tps_src"] = draw(gen.general_points_case(4, 7, 2, extent=10.0))
+            case["tps_delta"] = draw(st.lists(gen.vec(2, -1, 1), min_size=len(case["tps_src"]), max_size=len(case["tps_src"])))
+        if case["helper"] == "transform_custom":
+            case["cubic_a"] = draw(gen.qnz(-4, 4, 0.1))
         case["offsets"] = draw(st.lists(gen.vec(d, -20, 20), min_size=1, max_size=4))
         return case
 
@@ -300,15 +480,56 @@ def s_about_centre():
 
 def _build_obj(case):
     kind = case["kind"]
-    if kind.startswith("img"):
+    if kind in IMAGE_KINDS:
         shp = tuple(case["shape"])
-        return Image.init_blank(shp, n_channels=1)
+        nc = case.get("n_channels", 1)
+        if kind.startswith("img"):
+            return Image.init_blank(shp, n_channels=nc, fill=0.5)
+        mask = np.random.RandomState(case.get("mask_seed", 0)).rand(*shp) < 0.6
+        if kind.startswith("bimg"):
+            return BooleanImage(mask)
+        return MaskedImage.init_blank(shp, n_channels=nc, fill=0.5, mask=mask)
     pts = gen.arr(case["pts"]) + gen.arr(case["shift"])
     if kind.startswith("pc"):
         return PointCloud(pts)
     n = pts.shape[0]
+    if kind.startswith("pug"):
+        return PointUndirectedGraph.init_from_edges(pts, np.array([[i, i + 1] for i in range(n - 1)]))
     tl = np.array([[i, (i + 1) % n, (i + 2) % n] for i in range(n - 2)])
     return TriMesh(pts, trilist=tl)
+
+
+def _reference_centre(case):
+    """What the objects' centre() docstrings promise, computed without menpo: the mean of the points of a shape
+    (PointCloud.centre: 'the mean of all the points'), half the shape of an image ('the subpixel in the middle')."""
+    if case["kind"] in IMAGE_KINDS:
+        return np.array([n / 2.0 for n in case["shape"]])
+    d = len(case["shift"])
+    tot = [0.0] * d
+    for p in case["pts"]:
+        for k in range(d):
+            tot[k] += p[k] + case["shift"][k]
+    return np.array([x / len(case["pts"]) for x in tot])
+
+
+def _scale_argument(case, d):
+    """(argument for scale_about_centre, the d factors it denotes, is-single-precision)"""
+    form = case.get("scale_form", "float")
+    nz = lambda k: k if k != 0 else 2  # noqa: E731
+    if form == "array":
+        f = [float(x) for x in case["scale_vec"]]
+        return np.array(f), f, False
+    if form == "int_array":
+        f = [nz(int(round(x))) for x in case["scale_vec"]]
+        return np.array(f, dtype=np.int64), [float(x) for x in f], False
+    x = case["scale"]
+    if form in ("int", "np.int64"):
+        k = nz(int(round(x)))
+        return (k if form == "int" else np.int64(k)), [float(k)] * d, False
+    if form == "np.float32":
+        a = np.float32(x)
+        return a, [float(a)] * d, True
+    return x, [x] * d, False
 
 
 def c_about_centre(case, ctx):
@@ -317,82 +538,114 @@ def c_about_centre(case, ctx):
     c = np.asarray(obj.centre(), dtype=float).copy()
     helper = case["helper"]
     ctx.event("helper=%s kind=%s" % (helper, case["kind"]))
+    ctx.event("kind=%s" % case["kind"])
     ctx.nontrivial(float(np.abs(c).max()) > 1e-6)
-    rad = lambda x: x if case["degrees"] else math.radians(x)  # noqa: E731
-    plain = None
-    expect_chain = False
-    try:
-        if helper == "scale":
-            t = scale_about_centre(obj, case["scale"])
-            plain = np.eye(d) * case["scale"]
-        elif helper == "rotate":
-            th = case["theta_deg"]
-            if d != 2:
-                try:
-                    rotate_ccw_about_centre(obj, th if case["degrees"] else math.radians(th), degrees=case["degrees"])
-                    ctx.fail("about_centre.rotate.3d_not_refused", "")
-                except ValueError:
-                    ctx.event("refused 3d rotate")
-                return
-            t = rotate_ccw_about_centre(obj, th if case["degrees"] else math.radians(th), degrees=case["degrees"])
-            plain = rot2(math.radians(th))
-        elif helper == "shear":
-            phi, psi = case["phi_deg"], case["psi_deg"]
-            a = (phi, psi) if case["degrees"] else (math.radians(phi), math.radians(psi))
-            if d != 2:
-                try:
-                    shear_about_centre(obj, a[0], a[1], degrees=case["degrees"])
-                    ctx.fail("about_centre.shear.3d_not_refused", "")
-                except ValueError:
-                    ctx.event("refused 3d shear")
-                return
-            t = shear_about_centre(obj, a[0], a[1], degrees=case["degrees"])
-            plain = np.array([[1.0, math.tan(math.radians(phi))], [math.tan(math.radians(psi)), 1.0]])
-        elif helper == "transform_h":
-            lin = gen.build_linear(d, case["lin"])
-            h = np.eye(d + 1)
-            h[:d, :d] = lin
-            h[:d, d] = case["t"]
-            t = transform_about_centre(obj, Affine(h))
-            plain = h
-        else:
-            lin = gen.build_linear(d, case["lin"])
-            h = np.eye(d + 1)
-            h[:d, :d] = lin
-            h[:d, d] = case["t"]
-            chain = TransformChain([Affine(h), Translation(np.zeros(d))])
-            t = transform_about_centre(obj, chain)
-            plain = h
-            expect_chain = True
-    finally:
-        pass
-    if plain.shape == (d, d):
-        hp = np.eye(d + 1)
-        hp[:d, :d] = plain
-        plain = hp
-    lin, tr = plain[:d, :d], plain[:d, d]
-    if not expect_chain:
-        ctx.expect(isinstance(t, Homogeneous), "about_centre.single_homogeneous", type(t).__name__)
     sc = max(1.0, float(np.abs(c).max()))
-    if helper in ("transform_h", "transform_chain"):
-        # acts as the plain transform on offsets from the centre: c + v -> c + plain(v)
-        fixed = c + tr
+    ref_c = _reference_centre(case)
+    ctx.expect(c.shape == (d,) and close(c, ref_c, atol=1e-12 * sc * 100), "about_centre.centre_reference",
+               lambda: "%s.centre() = %r, the documented centre is %r" % (type(obj).__name__, c, ref_c))
+    degrees = case["degrees"]
+    omit = bool(case.get("omit_degrees", False))
+    arg_type = case.get("arg_type", "float")
+    conv = (lambda v: v) if degrees else math.radians
+    plain = None
+    nonlinear = None  # python function on (n, d) offsets when the transform is not homogeneous
+    single, loose = False, None  # an angle held in single precision: tolerance `loose` on the images of offsets
+    if helper == "scale":
+        arg, factors, _ = _scale_argument(case, d)  # a float32 factor is stored exactly in the float64 matrix
+        ctx.event("scale given as %s" % case.get("scale_form", "float"))
+        ctx.event("scale factors %s" % ("all equal" if len(set(factors)) == 1 else "per axis"))
+        ctx.event("scale sign %s" % ("has negative" if min(factors) < 0 else "positive"))
+        t = scale_about_centre(obj, arg)
+        plain = np.diag(factors)
+    elif helper == "rotate":
+        arg, val, single = typed_angle(conv(case["theta_deg"]), arg_type)
+        th = math.radians(val) if degrees else val
+        ctx.event("rotate degrees=%s angle as %s" % ("default" if (degrees and omit) else degrees, arg_type))
+        if d != 2:
+            try:
+                call_with_degrees(rotate_ccw_about_centre, (obj, arg), degrees, omit)
+                ctx.fail("about_centre.rotate.3d_not_refused", "")
+            except ValueError:
+                ctx.event("refused 3d rotate")
+            return
+        t = call_with_degrees(rotate_ccw_about_centre, (obj, arg), degrees, omit)
+        plain = rot2(th)
+        loose = 30 * angle_atol(th, True)  # offsets are at most 20 units per axis
+    elif helper == "shear":
+        a_phi, v_phi, single = typed_angle(conv(case["phi_deg"]), arg_type)
+        a_psi, v_psi, _ = typed_angle(conv(case["psi_deg"]), arg_type)
+        phi = math.radians(v_phi) if degrees else v_phi
+        psi = math.radians(v_psi) if degrees else v_psi
+        ctx.event("shear degrees=%s angle as %s" % ("default" if (degrees and omit) else degrees, arg_type))
+        if d != 2:
+            try:
+                call_with_degrees(shear_about_centre, (obj, a_phi, a_psi), degrees, omit)
+                ctx.fail("about_centre.shear.3d_not_refused", "")
+            except ValueError:
+                ctx.event("refused 3d shear")
+            return
+        t = call_with_degrees(shear_about_centre, (obj, a_phi, a_psi), degrees, omit)
+        plain = np.array([[1.0, math.tan(phi)], [math.tan(psi), 1.0]])
+        loose = 30 * 1e-6 * (1 + max(math.tan(phi) ** 2, math.tan(psi) ** 2))
+    elif helper in ("transform_h", "transform_chain"):
+        lin = gen.build_linear(d, case["lin"])
+        h = np.eye(d + 1)
+        h[:d, :d] = lin
+        h[:d, d] = case["t"]
+        if helper == "transform_h":
+            t = transform_about_centre(obj, Affine(h))
+        else:
+            t = transform_about_centre(obj, TransformChain([Affine(h), Translation(np.zeros(d))]))
+        plain = h
+    elif helper == "transform_tps":
+        src = gen.arr(case["tps_src"])
+        tgt = src + gen.arr(case["tps_delta"])
+        t = transform_about_centre(obj, ThinPlateSplines(PointCloud(src), PointCloud(tgt)))
+        # an identically built spline applied on its own to the offsets (the composition is what is checked here)
+        twin = ThinPlateSplines(PointCloud(src), PointCloud(tgt))
+        nonlinear = twin.apply
     else:
-        fixed = c
-    got_c = t.apply(c[None])[0]
-    ctx.expect(
-        close(got_c, fixed, atol=1e-8 * sc * 10),
-        "about_centre.centre_image." + helper,
-        lambda: "centre %r -> %r, want %r" % (c, got_c, fixed),
-    )
+        a_, b_ = case["cubic_a"], gen.arr(case["t"])
+        t = transform_about_centre(obj, CubicField(a_, b_))
+        nonlinear = lambda v: a_ * v * (v ** 2).sum(axis=1)[:, None] / 400.0 + b_  # noqa: E731
     offs = gen.arr(case["offsets"])
-    got = t.apply(c[None] + offs)
-    want = c[None] + offs.dot(lin.T) + tr[None]
-    ctx.expect(
-        close(got, want, atol=1e-8 * sc * 100),
-        "about_centre.offsets." + helper,
-        lambda: describe(got, want),
-    )
+    if nonlinear is not None:
+        # the documented fallback: translate to the origin, transform, translate back - as a chain
+        ctx.expect(isinstance(t, TransformChain), "about_centre.fallback_not_a_chain", type(t).__name__)
+        pts_in = np.vstack([np.zeros((1, d)), offs])
+        got = t.apply(c[None] + pts_in)
+        want = c[None] + nonlinear(pts_in)
+        ctx.expect(
+            close(got, want, atol=1e-7 * sc * 10),
+            "about_centre.offsets." + helper,
+            lambda: describe(got, want),
+        )
+    else:
+        if plain.shape == (d, d):
+            hp = np.eye(d + 1)
+            hp[:d, :d] = plain
+            plain = hp
+        lin, tr = plain[:d, :d], plain[:d, d]
+        if helper != "transform_chain":
+            ctx.expect(isinstance(t, Homogeneous), "about_centre.single_homogeneous", type(t).__name__)
+        atol = 1e-8 * sc * 100 if not single else max(loose, 1e-8 * sc * 100)
+        # acts as the plain transform on offsets from the centre: c + v -> c + plain(v); the wrappers take linear
+        # maps, so they keep the centre itself fixed
+        fixed = c + tr
+        got_c = t.apply(c[None])[0]
+        ctx.expect(
+            close(got_c, fixed, atol=1e-8 * sc * 10),
+            "about_centre.centre_image." + helper,
+            lambda: "centre %r -> %r, want %r" % (c, got_c, fixed),
+        )
+        got = t.apply(c[None] + offs)
+        want = c[None] + offs.dot(lin.T) + tr[None]
+        ctx.expect(
+            close(got, want, atol=atol),
+            "about_centre.offsets." + helper,
+            lambda: describe(got, want),
+        )
     # the object is untouched
     c2 = np.asarray(obj.centre(), dtype=float)
     ctx.expect(close(c2, c, atol=0), "about_centre.object_mutated", "")
@@ -405,6 +658,7 @@ def s_scale():
         mode = draw(st.sampled_from(["equal", "different", "scalar", "zero"]))
         d = draw(st.integers(2, 3))
         base = draw(gen.qnz(-8, 8, 1 / 64))
+        k = 0
         if mode == "equal":
             f = [base] * d
         elif mode == "different":
@@ -425,36 +679,65 @@ def s_scale():
         else:
             f = draw(st.lists(gen.qnz(-8, 8, 1 / 64), min_size=d, max_size=d))
             f[draw(st.integers(0, d - 1))] = 0.0
-        return {"mode": mode, "d": d, "f": f, "as_list": draw(st.booleans())}
+        # how the numbers are typed: python / float64 floats, python ints (list or int64 array), float32 array.
+        # Whole-number variants round the drawn factors and then restore the mode's defining feature.
+        num = draw(st.sampled_from(["float", "float", "int", "f32"]))
+        if num == "int":
+            nz = lambda x: int(round(x)) if int(round(x)) != 0 else 1  # noqa: E731
+            if mode == "scalar":
+                f = nz(f)
+            elif mode == "equal":
+                f = [nz(f[0])] * d
+            elif mode == "different":
+                f = [nz(x) for x in f]
+                if len(set(f)) == 1:
+                    f[k] = f[k] + 1 if f[k] != -1 else 2
+            else:
+                f = [int(round(x)) if x == 0.0 else nz(x) for x in f]
+        return {"mode": mode, "d": d, "f": f, "as_list": draw(st.booleans()), "num": num}
 
     return s()
 
 
+def _scale_vector_argument(case):
+    f, num = case["f"], case.get("num", "float")
+    if num == "f32":
+        return np.array(f, dtype=np.float32)  # denotes the factors rounded to single precision (see c_scale)
+    if case["as_list"]:
+        return list(f)
+    return np.array(f, dtype=np.int64 if num == "int" else float)
+
+
 def c_scale(case, ctx):
     mode, d, f = case["mode"], case["d"], case["f"]
+    num = case.get("num", "float")
     ctx.event("mode=" + mode)
+    ctx.event("numbers=" + num)
     ctx.nontrivial(mode != "scalar" or f != 1.0)
     if mode == "zero":
-        arg = f if case["as_list"] else np.array(f)
+        arg = _scale_vector_argument(case)
         try:
             Scale(arg)
             ctx.fail("scale.zero_not_refused", repr(f))
         except ValueError:
             pass
         try:
-            Scale(0.0, n_dims=d)
+            Scale({"float": 0.0, "int": 0, "f32": np.float32(0.0)}[num], n_dims=d)
             ctx.fail("scale.zero_scalar_not_refused", "")
         except ValueError:
             pass
         return
     if mode == "scalar":
-        s = Scale(f, n_dims=d)
+        s = Scale(np.float32(f) if num == "f32" else f, n_dims=d)
         factors = [f] * d
         want_cls = UniformScale
     else:
-        s = Scale(f if case["as_list"] else np.array(f))
+        s = Scale(_scale_vector_argument(case))
         factors = f
         want_cls = UniformScale if mode == "equal" else NonUniformScale
+    if num == "f32":
+        # the numbers handed over are the single-precision roundings (equal stay equal, >= 1e-2 apart stay apart)
+        factors = [float(np.float32(x)) for x in factors]
     ctx.expect(
         type(s) is want_cls,
         "scale.class." + mode,
@@ -464,6 +747,12 @@ def c_scale(case, ctx):
     want[np.arange(d), np.arange(d)] = factors
     ctx.expect(close(s.h_matrix, want, atol=1e-12), "scale.matrix", lambda: describe(s.h_matrix, want))
     ctx.expect(s.n_dims == d, "scale.n_dims", repr(s.n_dims))
+    # whatever the type of the factors, the transform is a floating point one (whole-number factors must not make
+    # an integer matrix that truncates later in-place updates)
+    ctx.expect(s.h_matrix.dtype == np.float64, "scale.h_matrix_dtype", "%s factors -> %s" % (num, s.h_matrix.dtype))
+    p = np.array([[1.0, -2.0, 0.5][:d], [0.25, 3.0, -4.0][:d]])
+    wantp = p * np.array(factors, dtype=float)[None]
+    ctx.expect(close(s.apply(p), wantp, atol=1e-12), "scale.apply", lambda: describe(s.apply(p), wantp))
 
 
 # ------------------------------------------------------------------------------------------ 6
@@ -472,6 +761,7 @@ def s_tcoords():
         {
             "shape": st.lists(st.integers(2, 60), min_size=2, max_size=2),
             "pts": st.lists(gen.vec(2, -2, 3), min_size=1, max_size=5),
+            "n_channels": st.integers(1, 3),
         }
     )
 
@@ -505,23 +795,43 @@ def c_tcoords(case, ctx):
     # explicit formula: (s, t) -> ((1 - t)(h-1), s (w-1))
     wantp = np.stack([(1 - p[:, 1]) * (h - 1), p[:, 0] * (w - 1)], axis=1)
     ctx.expect(close(t2i.apply(p), wantp, atol=1e-9 * max(h, w)), "tcoords.formula", lambda: describe(t2i.apply(p), wantp))
+    # the consumer of the transform: a textured mesh with these tcoords on an (h, w) texture reports the same pixel
+    # positions ("behave just like image landmarks")
+    n = p.shape[0]
+    mesh_pts = np.stack([p[:, 0], p[:, 1], p[:, 0] - p[:, 1]], axis=1)
+    ttm = TexturedTriMesh(mesh_pts, p.copy(), Image.init_blank((h, w), n_channels=case.get("n_channels", 1)),
+                          trilist=np.array([[0, min(1, n - 1), min(2, n - 1)]]))
+    scaled = ttm.tcoords_pixel_scaled()
+    ctx.expect(isinstance(scaled, PointCloud) and close(scaled.points, wantp, atol=1e-9 * max(h, w)),
+               "tcoords.textured_mesh_pixel_scaled", lambda: describe(scaled.points, wantp))
+    ctx.expect(np.array_equal(ttm.tcoords.points, p), "tcoords.textured_mesh_tcoords_mutated", lambda: describe(ttm.tcoords.points, p))
 
 
 CLAUSES = [
     Clause("ctor", c_ctor, s_ctor, quick=2500, thorough=60000, nt_floor=0.5,
-           rule="angle x constructor (2-D, x, y, z) x degrees/radians; non-trivial: angle not a multiple of 90 deg"),
+           rule="angle x constructor (2-D, x, y, z) x degrees (explicit / default) / radians x argument type "
+                "(float, int, numpy int/float32/float64); non-trivial: angle not a multiple of 90 deg"),
+    Clause("shear_ctor", c_shear_ctor, s_shear_ctor, quick=600, thorough=20000, nt_floor=0.4,
+           rule="Affine.init_from_2d_shear: signed phi/psi x degrees (explicit/default)/radians x argument type; "
+                "non-trivial: both angles non-zero and of different size"),
+    Clause("identity", c_identity, enumerate=enum_identity, nt_floor=0.0,
+           rule="init_identity of every homogeneous class in the anchored files x n_dims 2, 3 (exhaustive)"),
     Clause("axis_angle_2d", c_axis_angle_2d, s_axis_angle_2d, quick=1500, thorough=40000, nt_floor=0.5,
            rule="2-D rotation of a drawn signed angle; reported angle must reconstruct it, sign included"),
     Clause("axis_angle_3d", c_axis_angle_3d, s_axis_angle_3d, quick=1500, thorough=40000, nt_floor=0.5,
            rule="Rodrigues rotation from drawn unit axis and signed angle in +-[0.01, pi-0.01]"),
     Clause("quaternion", c_quat, s_quat, quick=1500, thorough=40000, nt_floor=0.5,
-           rule="canonical unit quaternions; textbook matrix and vector round trip"),
+           rule="canonical unit quaternions entering through a new object or in place (public deprecated / private "
+                "entry); textbook matrix and vector round trip"),
     Clause("rotmat", c_rotmat, s_rotmat, quick=1000, thorough=30000, nt_floor=0.5,
            rule="proper rotation matrices from Givens angles; matrix->quaternion->matrix"),
     Clause("about_centre", c_about_centre, s_about_centre, quick=2000, thorough=60000, nt_floor=0.5,
-           rule="object (PointCloud/TriMesh 2-D/3-D, Image) x helper (scale, rotate, shear, transform homogeneous/chain)"),
+           rule="object (PointCloud/TriMesh/PointUndirectedGraph 2-D/3-D, Image/MaskedImage/BooleanImage) x helper "
+                "(scale by signed scalar or per-axis array, rotate, shear, transform homogeneous / chain / thin plate "
+                "spline / closed-form non-homogeneous field)"),
     Clause("scale_factory", c_scale, s_scale, quick=1500, thorough=30000, nt_floor=0.5,
-           rule="factor lists clearly equal / clearly different / scalar+n_dims / containing a zero"),
+           rule="factor lists clearly equal / clearly different / scalar+n_dims / containing a zero; floats, whole "
+                "numbers (python ints, int64 arrays) and float32 arrays"),
     Clause("tcoords", c_tcoords, s_tcoords, quick=1000, thorough=30000, nt_floor=0.3,
            rule="image shapes 2..60 per axis, points in and around the unit square; non-trivial: non-square image"),
 ]
